@@ -264,3 +264,148 @@ Proof.
     + intros I. apply G2. eapply In_firstn; exact I.
     + intros I. apply G1. eapply In_firstn; exact I.
 Qed.
+
+(* ------------------------------------------------------------------------------------------------ refresh to a KEPT revision *)
+
+Lemma fl_app : forall D a b, fl D (a ++ b) = fl D a ++ fl D b.
+Proof. intros. unfold fl. apply filter_app. Qed.
+
+Lemma fl_cons_keep : forall D r b, ~ In r D -> fl D (r :: b) = r :: fl D b.
+Proof. intros D r b N. unfold fl. cbn. apply mem_false in N. rewrite N. reflexivity. Qed.
+
+Lemma count_filter_zero : forall x (l : list N), ~ In x l -> length (filter (fun y : N => N.eqb y x) l) = O.
+Proof.
+  induction l as [|y r IH]; intros H; [reflexivity|]. cbn.
+  destruct (y =? x) eqn:Q; [apply N.eqb_eq in Q; subst; exfalso; apply H; left; reflexivity|].
+  apply IH. intros I. apply H. right. exact I.
+Qed.
+
+Lemma fl_cons : forall D x (a : list N), fl D (x :: a) = if mem x D then fl D a else x :: fl D a.
+Proof. intros. unfold fl. cbn. destruct (mem x D); reflexivity. Qed.
+
+(* countMissingRevs after discards: of the revisions a that preceded the candidate, those in D are missing *)
+Lemma count_found_fl : forall D a l, NoDup l -> incl a l -> NoDup a ->
+  count_found a (fl D l) = length (fl D a).
+Proof.
+  intros D a l NDl. induction a as [|x a IH]; intros I NDa; [reflexivity|].
+  inversion NDa; subst. unfold count_found in *. cbn [fold_right].
+  rewrite IH; auto; [|intros y Hy; apply I; right; exact Hy].
+  assert (NDf : NoDup (fl D l)) by (unfold fl; apply NoDup_filter; exact NDl).
+  rewrite (fl_cons D x a). destruct (mem x D) eqn:M.
+  - rewrite count_filter_zero; [reflexivity|]. intros H. apply In_fl in H. apply mem_In in M. tauto.
+  - rewrite count_one; auto. apply In_fl. split; [apply I; left; reflexivity|apply mem_false; exact M].
+Qed.
+
+Lemma length_fl_le : forall D (a : list N), (length (fl D a) <= length a)%nat.
+Proof.
+  intros D a. unfold fl. induction a as [|x a IH]; [apply Nat.le_refl|]. cbn.
+  destruct (negb (mem x D)); cbn; lia.
+Qed.
+
+(* the sequence part of undoLinkSnap after the discards D: the candidate goes back in front of the survivors of b *)
+Lemma seq_undo_kept_after_gc : forall D (a b : list N) r, NoDup (a ++ r :: b) -> ~ In r D ->
+  let l' := fl D ((a ++ b) ++ [r]) in
+  last_index r l' = Some (length (fl D (a ++ b))) /\
+  firstn (length a - count_missing a l') l' ++ nth (length (fl D (a ++ b))) l' 0 :: skipn (length a - count_missing a l') (removelast l')
+  = fl D (a ++ r :: b).
+Proof.
+  intros D a b r ND NrD l'.
+  assert (E : l' = fl D (a ++ b) ++ [r]) by (unfold l'; apply fl_app_last; exact NrD).
+  rewrite E. split; [apply last_index_app_last|].
+  assert (NDab : NoDup ((a ++ b) ++ [r])).
+  { apply NoDup_app_last; [eapply NoDup_remove_1; eauto|eapply NoDup_remove_2; eauto]. }
+  assert (NDa : NoDup a).
+  { clear -ND. induction a as [|x a IH]; [constructor|]. inversion ND; subst. constructor; [|apply IH; assumption].
+    intros I. apply H1. apply in_or_app. left. exact I. }
+  assert (CM : count_missing a (fl D (a ++ b) ++ [r]) = (length a - length (fl D a))%nat).
+  { unfold count_missing. rewrite <- E. unfold l'. rewrite count_found_fl; auto.
+    intros x Hx. rewrite !in_app_iff. auto. }
+  rewrite CM. pose proof (length_fl_le D a) as LE.
+  replace (length a - (length a - length (fl D a)))%nat with (length (fl D a)) by lia.
+  rewrite removelast_last, nth_app_exact.
+  rewrite fl_app, <- app_assoc, firstn_app_exact, skipn_app_exact.
+  rewrite fl_app, fl_cons_keep by exact NrD. reflexivity.
+Qed.
+
+Lemma after_gc_core_kept : forall s o c D (h : bool),
+  wf s -> okind o = ORefresh -> accepts o s = true -> In (orev o) (seq s) ->
+  ~ In (cur s) D -> ~ In (orev o) D -> cfg_guard o s ->
+  forget (run_fail o c (([(KUnlinkCurrent, orev o); (KLink, orev o)] : list task)
+                        ++ map (fun r => (KDiscard, r)) D ++ (if h then [(KConfigure, orev o)] else [])) s)
+  = forget (minus D s).
+Proof.
+  intros s o c D h W K AC IN NcD NrD CG.
+  assert (NR : is_revert o = false) by (unfold is_revert; rewrite K; reflexivity).
+  unfold accepts in AC. rewrite K in AC. bool_hyps.
+  destruct W as [W1 W2 W3 W4 W5 W6 W7 W8].
+  unfold installed in *. destruct (seq s) as [|x0 l0] eqn:SQ0; [discriminate|]. rewrite <- SQ0 in *.
+  assert (NE : seq s <> []) by (rewrite SQ0; discriminate).
+  specialize (W2 NE).
+  match goal with H : active s = true |- _ => rename H into ACT end.
+  match goal with H : orev o <> cur s |- _ => rename H into RC end.
+  destruct (last_index (orev o) (seq s)) as [i|] eqn:LI; [|apply last_index_none in LI; tauto].
+  destruct (last_index_split _ _ _ W1 LI) as (a & b & SQ & LA & _ & _).
+  assert (ND' : NoDup (a ++ orev o :: b)) by (rewrite <- SQ; exact W1).
+  destruct (seq_undo_kept_after_gc D a b (orev o) ND' NrD) as [L1 L2].
+  assert (Icab : In (cur s) (a ++ b)).
+  { rewrite SQ in W2. apply in_app_iff in W2. apply in_or_app. destruct W2 as [I|[I|I]]; [left; exact I|congruence|right; exact I]. }
+  cbn [app run_fail]. unfold do_task at 1. cbn [fst snd]. unfold do_task at 1. cbn [fst snd].
+  set (s2 := do_unlink_current s).
+  destruct (do_link o s2) as [X' d] eqn:DL.
+  rewrite run_fail_no_undo.
+  2:{ intros t Ht. apply in_app_iff in Ht. destruct Ht as [Ht|Ht].
+      - apply in_map_iff in Ht. destruct Ht as (x & <- & _). left; reflexivity.
+      - destruct h; [destruct Ht as [<-|[]]; right; reflexivity|destruct Ht]. }
+  unfold run_ok. rewrite fold_left_app.
+  unfold s2, do_unlink_current in DL. rewrite norm_id in DL by (simpl; exact NE).
+  unfold do_link in DL. rewrite NR in DL. simpl in DL. rewrite LI, SQ0 in DL. rewrite <- SQ0 in DL.
+  injection DL as <- <-.
+  assert (R1 : remove_at i (seq s) ++ [orev o] = (a ++ b) ++ [orev o]) by (rewrite SQ, <- LA, remove_at_app; reflexivity).
+  assert (R2 : firstn i (seq s) = a) by (rewrite SQ, <- LA; apply firstn_app_exact).
+  rewrite R1, R2.
+  match goal with |- context [fold_left ?f (map ?g D) ?X] =>
+    assert (DR : fold_left f (map g D) X = minus D X)
+      by (apply (discards_run o D X (cur s) (orev o)); simpl; auto;
+          try (apply in_or_app; left; exact Icab); try (apply in_or_app; right; left; reflexivity))
+  end.
+  unfold task in *. rewrite DR.
+  unfold minus. simpl.
+  rewrite <- rem_fl_comm.
+  assert (Ic : In (cur s) (fl D (seq s))) by (apply In_fl; auto).
+  assert (U : forall cf nbx,
+    forget (undo_unlink_current (undo_link o
+      (mkLD (chan s) (ignoreval s) (trymode s) (devmode s) (jailmode s) (classic s) (cur s) (Some i) (inhib s) (lastref s)
+            (cohort s) a (Some (nb s)))
+      (mkSt (fl D ((a ++ b) ++ [orev o])) (orev o) true (if ochan o =? 0 then chan s else ochan o) (odev o) (ojail o)
+            (oclassic o) (otry o) (oignore o) (ocohort o) (onow o) 0 nbx cf
+            (rcdel D (save_rev_cfg (cur s) (cfg s) (revcfg s))) (fl D (mounted s)) (orev o))))
+    = mkSt (fl D (seq s)) (cur s) true (chan s) (devmode s) (jailmode s) (classic s) (trymode s) (ignoreval s) (cohort s)
+           (lastref s) (inhib s) (fl D (nb s))
+           (restore_rev_cfg (cur s) cf (rcdel D (save_rev_cfg (cur s) (cfg s) (revcfg s)))) [] (fl D (mounted s)) (cur s)).
+  { intros cf nbx. unfold undo_link. cbn [cur seq old_cand old_before]. rewrite L1. rewrite NR.
+    cbn [old_cur old_rs revcfg nb cfg]. rewrite <- LA. rewrite L2. rewrite <- SQ.
+    rewrite (nb_filter D (seq s) (nb s) W4).
+    destruct (fl D (seq s)) as [|u v] eqn:F; [destruct Ic|]. rewrite <- F in *.
+    unfold norm, undo_unlink_current, set_active_link, forget. cbn. rewrite F. cbn. rewrite <- F. reflexivity. }
+  assert (G : forall cf, (cf = cfg s \/ (ohookcfg o <> 0 /\ cf = ohookcfg o)) ->
+              restore_rev_cfg (cur s) cf (rcdel D (save_rev_cfg (cur s) (cfg s) (revcfg s))) = cfg s).
+  { intros cf Hcf. unfold restore_rev_cfg. rewrite rc_get_rcdel by exact NcD.
+    destruct CG as [C|[C|(C1 & C2 & _)]]; [|congruence|].
+    - unfold save_rev_cfg. destruct (cfg s =? 0) eqn:Z; [apply N.eqb_eq in Z; congruence|]. rewrite rc_get_set_same. reflexivity.
+    - unfold save_rev_cfg. destruct (cfg s =? 0) eqn:Z.
+      + rewrite C2. destruct Hcf as [->|[Hk _]]; [reflexivity|congruence].
+      + rewrite rc_get_set_same. reflexivity. }
+  assert (FIN : forall cf, (cf = cfg s \/ (ohookcfg o <> 0 /\ cf = ohookcfg o)) ->
+     mkSt (fl D (seq s)) (cur s) true (chan s) (devmode s) (jailmode s) (classic s) (trymode s) (ignoreval s) (cohort s)
+           (lastref s) (inhib s) (fl D (nb s))
+           (restore_rev_cfg (cur s) cf (rcdel D (save_rev_cfg (cur s) (cfg s) (revcfg s)))) [] (fl D (mounted s)) (cur s)
+     = forget (mkSt (fl D (seq s)) (cur s) (active s) (chan s) (devmode s) (jailmode s) (classic s) (trymode s) (ignoreval s)
+                    (cohort s) (lastref s) (inhib s) (fl D (nb s)) (cfg s) (rcdel D (revcfg s)) (fl D (mounted s)) (link s))).
+  { intros cf Hcf. rewrite (G cf Hcf). unfold forget. cbn. rewrite W8, ACT. reflexivity. }
+  unfold undo_task. cbn [fst snd].
+  destruct h; cbn [fold_left].
+  - unfold do_task. cbn [fst snd]. unfold do_configure. cbn [ohookcfg cfg]. destruct (ohookcfg o =? 0) eqn:HK.
+    + rewrite U. apply FIN. left; reflexivity.
+    + cbn. rewrite U. apply FIN. right. apply N.eqb_neq in HK. auto.
+  - rewrite U. apply FIN. left; reflexivity.
+Qed.
